@@ -190,13 +190,112 @@ def showExtra (x : Extra) : String :=
     "mac:" ++ showRes (showItems showMacRecord) x.mac ++ s!"/{x.macPrinted}",
     "boot:" ++ showRes showBootargs x.bootargs]
 
+/-! ### the third group (`MdModel.DumpFull.readMore`) -/
+
+def showOptNatList (l : List (Option Nat)) : String := Proto.joinWith "," (l.map showOptNat)
+
+def showNats (l : List Nat) : String := Proto.joinWith "." (l.map toString)
+
+def showMiscTz (t : MiscTimeZone) : String :=
+  s!"{t.bias}:{showOptName t.standardName}:{showNats t.standardDate}:{t.standardBias}:{showOptName t.daylightName}:" ++
+    s!"{showNats t.daylightDate}:{t.daylightBias}"
+
+def showMisc (m : MiscPrinted) : String :=
+  s!"ok {m.ver}/{showOptNatList m.simple}/tz" ++ (match m.timeZone with
+    | none => "-"
+    | some t => "=" ++ showMiscTz t) ++ s!"/bs{showOptName m.buildString}/dbs{showOptName m.dbgBldStr}/xs" ++
+    (match m.xstate with
+     | none => "-"
+     | some fs => "=" ++ Proto.joinWith "," (fs.map fun (i, o, z) => s!"{i}:{o}:{z}"))
+
+/-- lookups: in full for up to 160 of them, else their number and a hash -/
+def showProbes (ps : List (Nat × Option Nat)) : String :=
+  if ps.length ≤ 160 then
+    Proto.joinWith "," (ps.map fun (a, r) => match r with
+      | none => s!"{a}:~"
+      | some i => s!"{a}:{i}")
+  else
+    let h := ps.foldl (fun h (a, r) => (h * 1000003 + a % 4294967296 + 7 * (match r with
+      | none => 0
+      | some i => i + 1)) % 4294967296) 0
+    s!"#{ps.length}:{h}"
+
+def showIndices (is : List Nat) : String :=
+  if is.length ≤ 160 then Proto.joinWith "," (is.map toString)
+  else s!"#{is.length}:{is.foldl (fun h i => (h * 1000003 + i + 1) % 4294967296) 0}"
+
+def showMapsOut (m : MapsOut) : String :=
+  "ok [" ++ Proto.joinWith ";" (m.maps.entries.map Encode.showMapEntry) ++ "]|" ++ showProbes m.probes
+
+def showUnified (u : UnifiedOut) : String :=
+  (match u.kind with
+   | .info => "info"
+   | .maps => "maps") ++ s!"/{u.count}/[{showIndices u.byAddr}]/{showProbes u.probes}"
+
+def showOptStr : Option String → String
+  | none => "-"
+  | some s => "=" ++ s
+
+def showModOut (m : ModOut) : String :=
+  s!"{showOptStr m.ids.debugId}/{showOptStr m.ids.codeId}/{showOptName m.ids.debugFile}/{showOptStr m.ids.version}/{m.hexPrinted}"
+
+def showRegsOut : Option RegsOut → String
+  | none => "-"
+  | some r =>
+    s!"{r.kind.name}:" ++ Proto.joinWith "," (r.valid.map fun (n, v) => n ++ "=" ++ Proto.natToHex v) ++ "|" ++
+      Proto.joinWith "," (r.got.map fun o => match o with
+        | none => "none"
+        | some v => Proto.natToHex v) ++ s!"|{r.size}|" ++ Proto.joinWith "," r.fmt
+
+def showMore (x : More) : String :=
+  Proto.joinWith " | " [
+    "misc:" ++ showRes showMisc x.misc,
+    "maps:" ++ (match x.maps with
+      | .error site => "PANIC:" ++ mapsPanicClass site
+      | .ok r => showRes showMapsOut r),
+    "uni:" ++ (match x.unified with
+      | .error site => "PANIC:" ++ mapsPanicClass site
+      | .ok none => "-"
+      | .ok (some u) => showUnified u),
+    "osp:" ++ (match x.osParts with
+      | none => "-"
+      | some (v, b) => showName v ++ "/" ++ showOptName b),
+    "ids:" ++ (match x.modules with
+      | none => "-"
+      | some ms => showItems showModOut ms),
+    "uids:" ++ (match x.unloaded with
+      | none => "-"
+      | some us => showItems id us),
+    "soft:" ++ showRes (fun n => s!"ok {n}") x.softErrors,
+    "regs:" ++ (match x.regs with
+      | none => "-"
+      | some rs => showItems showRegsOut rs),
+    "xregs:" ++ (match x.excRegs with
+      | none => "-"
+      | some r => showRegsOut r)]
+
+def renderWhole (r : M (Except Err Whole)) : Option String :=
+  match r.res with
+  | .panic _ => none
+  | .err e => some ("hdr:err " ++ e.name)    -- not produced (errors are values)
+  | .ok (.error e) => some ("hdr:err " ++ e.name)
+  | .ok (.ok w) => some (showParsed w.full.base ++ " | " ++ showExtra w.full.extra ++ " | " ++ showMore w.more)
+
+/-- The driver runs `readWhole`. When it reaches a panic outcome (the Linux-maps reader on a hostile
+    line is the only way, theorem `whole_panics_iff`) the line is rendered from the run in which
+    that one operation is wrapped the way the harness wraps it (`catch_unwind`), so that every other
+    group can still be compared; the maps group then reads `PANIC:<site class>`. -/
 def answerRead (ms : MemSizes) (b : Bytes) : String :=
-  let r := readFull ms b
-  (match r.res with
-   | .panic site => "PANIC " ++ site
-   | .err e => "hdr:err " ++ e.name    -- not produced by `readFull` (errors are values)
-   | .ok (.error e) => "hdr:err " ++ e.name
-   | .ok (.ok f) => showParsed f.base ++ " | " ++ showExtra f.extra) ++ " ## " ++ showAllocs r.allocs
+  let r := readWhole ms b
+  match renderWhole r with
+  | some line => line ++ " ## " ++ showAllocs r.allocs
+  | none =>
+    let r' := readWholeWith true ms b
+    match renderWhole r' with
+    | some line => line ++ " ## " ++ showAllocs r'.allocs
+    | none => (match r'.res with
+      | .panic site => "PANIC " ++ site
+      | _ => "PANIC") ++ " ## " ++ showAllocs r'.allocs
 
 /-- line-protocol entry point of this model (engine(s): read, roundtrip) -/
 def handle (engine : String) (args : List String) : String :=
